@@ -493,4 +493,59 @@ theorem frun_disk_level (s : Svc) (hp : s.persist = true) (fops : List FOp) (hf 
       refine ⟨?_, this.2⟩
       simp [effective]
 
+/-! ### the disk holds the WHOLE state last recorded -/
+
+def stateStep (T id : String) (st : Option ES) : Op → Option ES
+  | .collect T' i l p => if T' = T ∧ i = id then some { id := i, level := l, time := p } else st
+  | .update T' i l p => if T' = T ∧ i = id then some { id := i, level := l, time := p } else st
+  | .deleteTopic T' => if T' = T then none else st
+  | _ => st
+
+theorem lastStateFrom_eq (s0 : Option ES) (ops : List Op) (T id : String) :
+    lastStateFrom s0 ops T id = ops.foldl (stateStep T id) s0 := by
+  unfold lastStateFrom
+  congr 1
+
+/-- whatever record the bucket holds for an id is the whole state last recorded for it -/
+theorem foldl_diskStep_state (d : Store) (s0 : Option ES) (ops : List Op) (T id : String)
+    (h : ∀ e, d T id = some e → s0 = some e) :
+    ∀ e, (ops.foldl diskStep d) T id = some e → lastStateFrom s0 ops T id = some e := by
+  rw [lastStateFrom_eq]
+  induction ops generalizing d s0 with
+  | nil => exact h
+  | cons op rest ih =>
+    simp only [List.foldl_cons]
+    apply ih
+    intro e he
+    rcases op with ⟨T', i, l, t⟩ | ⟨T', i, l, t⟩ | T' | T' | T'
+    · by_cases hk : T' = T ∧ i = id
+      · by_cases hl : l = 0
+        · simp [diskStep, hl, Store.del, hk] at he
+        · obtain ⟨rfl, rfl⟩ := hk
+          simp [diskStep, hl, Store.put] at he
+          simp [stateStep, he]
+      · by_cases hl : l = 0
+        · simp only [diskStep, hl, if_true, Store.del] at he
+          split at he
+          · cases he
+          · simp only [stateStep, hk, if_false]; exact h e he
+        · simp only [diskStep, hl, if_false, Store.put] at he
+          split at he
+          · rename_i hc; exact absurd ⟨hc.1, hc.2⟩ hk
+          · simp only [stateStep, hk, if_false]; exact h e he
+    · by_cases hk : T' = T ∧ i = id
+      · obtain ⟨rfl, rfl⟩ := hk
+        simp [diskStep, Store.put] at he
+        simp [stateStep, he]
+      · simp only [diskStep, Store.put] at he
+        split at he
+        · rename_i hc; exact absurd ⟨hc.1, hc.2⟩ hk
+        · simp only [stateStep, hk, if_false]; exact h e he
+    · exact h e he
+    · exact h e he
+    · by_cases hk : T' = T
+      · simp [diskStep, Store.dropTopic, hk] at he
+      · simp only [diskStep, Store.dropTopic, hk, if_false] at he
+        simp only [stateStep, hk, if_false]; exact h e he
+
 end Kap.C08
